@@ -46,7 +46,7 @@ fn programs() -> Vec<Prog> {
         },
         Prog {
             name: "R3",
-            lines: vec!["10 DEF FNA(Q)=Q+40", "20 X=3: S$=\"s\": A(1)=9", "30 STOP", "40 PRINT FNA(1)", "50 PRINT 1/0"],
+            lines: vec!["10 DEF FNA(Q)=Q+40", "20 X=3: S$=\"s\": A(1)=9: DIM Z(20)", "30 STOP", "40 PRINT FNA(1)", "50 PRINT 1/0"],
             data_line: None,
             def_line: Some(10),
             replies: vec![],
@@ -61,7 +61,7 @@ fn programs() -> Vec<Prog> {
         // a one-line program: deleting its line leaves no program at all
         Prog {
             name: "R5",
-            lines: vec!["10 X=3: S$=\"s\": A(1)=9: FOR I=1 TO 2: STOP: PRINT X;: NEXT I"],
+            lines: vec!["10 DIM Z(20): X=3: S$=\"s\": A(1)=9: FOR I=1 TO 2: STOP: PRINT X;: NEXT I"],
             data_line: None,
             def_line: None,
             replies: vec![],
@@ -82,7 +82,7 @@ enum Edit {
     AddData,
 }
 
-const PROBES: [&str; 9] = ["CONT", "RETURN", "NEXT I", "READ Z: PRINT Z", "PRINT FNA(1)", "GOTO 10", "PRINT X;S$;A(1)", "LIST", "NEXT K"];
+const PROBES: [&str; 10] = ["CONT", "RETURN", "NEXT I", "READ Z: PRINT Z", "PRINT FNA(1)", "GOTO 10", "PRINT X;S$;A(1)", "LIST", "NEXT K", "Z(15)=7: PRINT Z(15);Z(20)"];
 
 /// Typed at the suspension point before the edit: a loop opened in immediate mode is a
 /// runtime reference like any other.
@@ -98,13 +98,20 @@ fn suspend_at(p: &Prog, k: usize) -> Option<(Sess, Vec<Ev>, Option<u64>)> {
     suspend_at_with(p, k, 3)
 }
 
-/// `pre`: bit 0 = type FOR K=1 TO 3 before the edit, bit 1 = type READ Z9 before the edit.
+/// `pre`: bit 0 = type FOR K=1 TO 3 before the edit, bit 1 = type READ Z9 before the edit,
+/// bit 2 = the program is not typed in but loaded as a source file (the CLI's way in).
 fn suspend_at_with(p: &Prog, k: usize, pre: u8) -> Option<(Sess, Vec<Ev>, Option<u64>)> {
     let mut s = Sess::new();
     let mut hist = vec![];
+    if pre & 4 != 0 {
+        let text = p.lines.join("\n");
+        s = Sess::from_interpreter(guarded(move || abasic_core::SourceFileAnalyzer::analyze(text).into_interpreter()).ok()?);
+    }
     for l in &p.lines {
         let e = Ev::Line(l.to_string());
-        let _ = s.apply(&e);
+        if pre & 4 == 0 {
+            let _ = s.apply(&e);
+        }
         hist.push(e);
     }
     let mut replies = p.replies.iter();
@@ -235,17 +242,17 @@ pub fn run(thorough: bool) -> Report {
             } else {
                 PROBES.iter().map(|p| vec![*p]).collect()
             };
-            for (probes, pre) in probe_sets.iter().flat_map(|ps| [3u8, 2, 1, 0].into_iter().map(move |m| (ps.clone(), m))) {
+            for (probes, pre) in probe_sets.iter().flat_map(|ps| [3u8, 2, 1, 0, 7].into_iter().map(move |m| (ps.clone(), m))) {
                 // pairs of probes only with both pre-edit lines typed
-                if probes.len() > 1 && pre != 3 {
+                if probes.len() > 1 && pre & 3 != 3 {
                     continue;
                 }
                 runs += 1;
                 let (mut s, mut hist, _) = suspend_at_with(p, *k, pre).unwrap();
                 let (mut base, _, _) = suspend_at_with(p, *k, pre).unwrap();
                 let mk = |sig: String, detail: String, hist: &Vec<Ev>| Violation {
-                    signature: format!("{} {:?}: {}", p.name, e, sig),
-                    detail,
+                    signature: format!("{} {:?}{}: {}", p.name, e, if pre & 4 != 0 { " (program loaded as a file)" } else { "" }, sig),
+                    detail: if pre & 4 != 0 { format!("{} [the program lines were not typed but loaded through SourceFileAnalyzer::into_interpreter]", detail) } else { detail },
                     case: case_history(hist, false, false),
                 };
                 let ev = Ev::Line(eline.clone());
@@ -320,6 +327,7 @@ pub fn run(thorough: bool) -> Report {
                             }
                         }
                         "PRINT X;S$;A(1)" => (got != want_base).then(|| "variable or array contents changed by the edit".to_string()),
+                        "Z(15)=7: PRINT Z(15);Z(20)" => (got != want_base).then(|| "an array's shape changed by the edit".to_string()),
                         // the replaced line 10 is what runs when execution is sent there
                         "GOTO 10" if matches!(e, Edit::ReplaceFirst) => (got != vec!["Print(\"new\\n\")".to_string(), "Idle".to_string()]).then(|| "GOTO into the replaced line runs something else than its new text".to_string()),
                         _ => None,
